@@ -52,11 +52,15 @@ def main():
     run_demo = (f'/venv/bin/python -m pytest -q -p no:cacheprovider {demo}' if is_pytest
                 else f'/venv/bin/python -W ignore {demo}')
     with_patch = sh(run_demo, env=env, cwd=wt)
-    sh(f'git -C {wt} stash')
+    # (git stash is shared by all worktrees of a repository: reverse-apply the patch instead)
+    pf = os.path.join(dst, 'patch.diff')
+    rv = sh(f'git -C {wt} apply -R {pf}')
+    assert rv.returncode == 0, rv.stderr
     try:
         without = sh(run_demo, env=env, cwd=wt)
     finally:
-        sh(f'git -C {wt} stash pop')
+        ap = sh(f'git -C {wt} apply {pf}')
+        assert ap.returncode == 0, ap.stderr
     rec = {'demo_with_patch_exit': with_patch.returncode, 'demo_without_patch_exit': without.returncode,
            'demo_confirms': with_patch.returncode != 0 and without.returncode == 0, 'checks': {}}
     print(f'demo: with patch exit={with_patch.returncode}, without exit={without.returncode}')
